@@ -15,6 +15,7 @@ import (
 	"os"
 	"runtime"
 	"slices"
+	"strings"
 
 	"golang.org/x/tools/go/ssa"
 )
@@ -75,6 +76,7 @@ type frame struct {
 	panicking        bool
 	panic            interface{}
 	phitemps         []value // temporaries for parallel phi assignment
+	cur              ssa.Instruction
 }
 
 func (fr *frame) get(key ssa.Value) value {
@@ -548,6 +550,22 @@ func runFrame(fr *frame) {
 		}
 		switch r.(type) {
 		case targetPanic:
+			if fr.i.path != nil && !fr.panicking && fr.i.path.fs["panicnoted"] != r {
+				// innermost frame of a fresh panic: remember where it was raised
+				fr.i.path.fs["panicnoted"] = r
+				var chain []string
+				for f := fr; f != nil && len(chain) < 8; f = f.caller {
+					at := ""
+					if f.cur != nil {
+						at = fmt.Sprintf("@%s", fr.i.prog.Fset.Position(f.cur.Pos()))
+						if f == fr {
+							at += fmt.Sprintf(" [%v]", f.cur)
+						}
+					}
+					chain = append(chain, f.fn.String()+at)
+				}
+				fr.i.path.trace = append(fr.i.path.trace, "panic raised in: "+strings.Join(chain, " <- "))
+			}
 		default:
 			// a Go run-time error inside the engine itself is an engine defect, never target behaviour
 			buf := make([]byte, 1<<14)
@@ -575,6 +593,7 @@ func runFrame(fr *frame) {
 			}
 		}
 		for _, instr := range nonPhis {
+			fr.cur = instr
 			if visitInstr(fr, instr) == kReturn {
 				return
 			}
